@@ -79,6 +79,108 @@ theorem kernel_minv_invertible (nn : Nat) (θ : K) (S Y : List (Vec K)) (hθ : 0
     finSumFinEquiv.symm finSumFinEquiv.symm, ?_⟩
   rw [hNk, hNb, submatrix_mul_equiv, submatrix_mul_equiv, hinv', submatrix_one_equiv, submatrix_one_equiv]
 
+/-- the context of the Cauchy theorems holds for a kernel input built from positive-curvature pairs: there is an inverse `Mm` of
+the middle matrix, and `MinCtx` holds with it -/
+theorem kernel_minCtx (lb ub : Vec K) (e : K) (x g : Vec K) (X G : List (Vec K))
+    (hX : X.length > 1) (hXG : X.length = G.length) (hn : 0 < x.length)
+    (hS : ∀ j, j < (diffs X).length → ((diffs X).getD j []).length = x.length)
+    (hY : ∀ j, j < (diffs X).length → ((diffs G).getD j []).length = x.length)
+    (hcurv : ∀ j, j < (diffs X).length → vec x.length ((diffs X).getD j []) ≠ 0 ∧
+      0 < vec x.length ((diffs X).getD j []) ⬝ᵥ vec x.length ((diffs G).getD j []))
+    (hθ : 0 < thetaOf X G) (box : InBoxF lb ub x)
+    (floor : ∀ dd : Fin x.length → K, dd ≠ 0 →
+      (∀ r, dd r = 0 ∨ dd r = vec x.length (cauchyD0 (breakpoints x (fitTo x g) lb ub) (fitTo x g)) r) →
+      e * f2orgOf (kernelInput x g lb ub (some (X, G)) e) ≤
+        dd ⬝ᵥ (C10.bfgsChain ((thetaOf X G) • (1 : Matrix (Fin x.length) (Fin x.length) K))
+          (pairsOf x.length (diffs X) (diffs G)) *ᵥ dd)) :
+    ∃ Mm : Matrix (Fin ((lOf x.length (diffs X) (diffs G)).length + (lOf x.length (diffs X) (diffs G)).length))
+        (Fin ((lOf x.length (diffs X) (diffs G)).length + (lOf x.length (diffs X) (diffs G)).length)) K,
+      kOf (kernelInput x g lb ub (some (X, G)) e) =
+        (lOf x.length (diffs X) (diffs G)).length + (lOf x.length (diffs X) (diffs G)).length ∧
+      MinCtx (kernelInput x g lb ub (some (X, G)) e) x.length _ Mm (f2orgOf (kernelInput x g lb ub (some (X, G)) e)) := by
+  have hi : kernelInput x g lb ub (some (X, G)) e =
+      { x, g := fitTo x g, lb, ub, theta := thetaOf X G, W := buildW x.length (thetaOf X G) (diffs X) (diffs G),
+        Minv := buildMinv (thetaOf X G) (diffs X) (diffs G), useFactor := true, epsFsec := e } := by
+    simp only [kernelInput, hX, if_true]
+  have hSY : (diffs X).length = (diffs G).length := by rw [diffs_length, diffs_length, hXG]
+  have hm := lOf_length x.length (diffs X) (diffs G) hSY
+  obtain ⟨Mm, hM⟩ := kernel_minv_invertible x.length (thetaOf X G) (diffs X) (diffs G) hθ hSY hS hY hcurv
+  obtain ⟨hB, hspd⟩ := C10.kernel_matrix_is_bfgs x.length (thetaOf X G) (diffs X) (diffs G) hθ hSY hS hY hcurv Mm hM
+  -- sizes of the kernel input
+  obtain ⟨sW, srow, sk, -, -, -⟩ := kernelInput_sizes x g lb ub X G e hX hXG hn
+  have hkk : 2 * (X.length - 1) = (lOf x.length (diffs X) (diffs G)).length + (lOf x.length (diffs X) (diffs G)).length := by
+    rw [hm, diffs_length]; omega
+  have hg : (fitTo x g).length = x.length := fitTo_length x g
+  rw [hi] at sW srow sk
+  have hsym : (wmat ((lOf x.length (diffs X) (diffs G)).length + (lOf x.length (diffs X) (diffs G)).length)
+      ((lOf x.length (diffs X) (diffs G)).length + (lOf x.length (diffs X) (diffs G)).length)
+      (buildMinv (thetaOf X G) (diffs X) (diffs G)))ᵀ =
+      wmat _ _ (buildMinv (thetaOf X G) (diffs X) (diffs G)) := by
+    funext a b
+    simp only [transpose_apply, wmat]
+    exact buildMinv_symm _ _ _ b a (by have := b.2; omega) (by have := a.2; omega)
+  have hMl : (buildMinv (thetaOf X G) (diffs X) (diffs G)).length =
+      (lOf x.length (diffs X) (diffs G)).length + (lOf x.length (diffs X) (diffs G)).length := by
+    rw [C10.buildMinv_length, hm]
+  have hMrow : ∀ r, r < (lOf x.length (diffs X) (diffs G)).length + (lOf x.length (diffs X) (diffs G)).length →
+      ((buildMinv (thetaOf X G) (diffs X) (diffs G)).getD r []).length =
+        (lOf x.length (diffs X) (diffs G)).length + (lOf x.length (diffs X) (diffs G)).length := by
+    intro r hr
+    rw [hm]
+    apply C10.buildMinv_rows
+    rw [List.getD_eq_getElem?_getD, List.getElem?_eq_getElem (by rw [C10.buildMinv_length, ← hm]; exact hr)]
+    exact List.getElem_mem _
+  -- the context of the Cauchy theorems
+  have hq : QCtx (kernelInput x g lb ub (some (X, G)) e) x.length _ Mm := by
+    rw [hi]
+    exact C09.qctx_of_pivots _ x.length _ Mm rfl hg sW (fun r hr => by rw [srow r hr, hkk]) rfl hMl hMrow hM hsym
+  have hpd : ∀ a : Fin x.length → K, a ≠ 0 →
+      0 < a ⬝ᵥ (bmat (thetaOf X G) (wmat x.length _ (buildW x.length (thetaOf X G) (diffs X) (diffs G))) Mm *ᵥ a) := by
+    intro a ha; rw [hB]; exact hspd.2 a ha
+  have hmin : MinCtx (kernelInput x g lb ub (some (X, G)) e) x.length _ Mm (f2orgOf (kernelInput x g lb ub (some (X, G)) e)) := by
+    refine ⟨hq, ?_, ?_, ?_⟩
+    · rw [hi]; exact box
+    · rw [hi]; exact hpd
+    · intro dd hne hpat
+      have := floor dd hne (by rw [hi] at hpat; exact hpat)
+      rw [hi]
+      show e * _ ≤ dd ⬝ᵥ (bmat (thetaOf X G) _ Mm *ᵥ dd)
+      rw [hB]
+      rw [hi] at this
+      exact this
+  have hk : kOf (kernelInput x g lb ub (some (X, G)) e) =
+      (lOf x.length (diffs X) (diffs G)).length + (lOf x.length (diffs X) (diffs G)).length := by
+    rw [hi, sk, hkk]
+  exact ⟨Mm, hk, hmin⟩
+
+/-- **C08 (first local minimiser, from the curvature of the stored pairs)** for the kernel input the driver builds from a
+memory snapshot with at least one pair: feasibility, positive curvature of the stored pairs, `θ > 0` and an inactive floor are
+the only hypotheses. `φ` is taken with the inverse `Mm` of the middle matrix, i.e. with `B` = the BFGS matrix of the pairs. -/
+theorem gcp_first_local_min_curv (lb ub : Vec K) (e : K) (x g : Vec K) (X G : List (Vec K))
+    (hX : X.length > 1) (hXG : X.length = G.length) (hn : 0 < x.length)
+    (hS : ∀ j, j < (diffs X).length → ((diffs X).getD j []).length = x.length)
+    (hY : ∀ j, j < (diffs X).length → ((diffs G).getD j []).length = x.length)
+    (hcurv : ∀ j, j < (diffs X).length → vec x.length ((diffs X).getD j []) ≠ 0 ∧
+      0 < vec x.length ((diffs X).getD j []) ⬝ᵥ vec x.length ((diffs G).getD j []))
+    (hθ : 0 < thetaOf X G) (box : InBoxF lb ub x)
+    (floor : ∀ dd : Fin x.length → K, dd ≠ 0 →
+      (∀ r, dd r = 0 ∨ dd r = vec x.length (cauchyD0 (breakpoints x (fitTo x g) lb ub) (fitTo x g)) r) →
+      e * f2orgOf (kernelInput x g lb ub (some (X, G)) e) ≤
+        dd ⬝ᵥ (C10.bfgsChain ((thetaOf X G) • (1 : Matrix (Fin x.length) (Fin x.length) K))
+          (pairsOf x.length (diffs X) (diffs G)) *ᵥ dd)) :
+    ∃ (Mm : Matrix (Fin ((lOf x.length (diffs X) (diffs G)).length + (lOf x.length (diffs X) (diffs G)).length))
+        (Fin ((lOf x.length (diffs X) (diffs G)).length + (lOf x.length (diffs X) (diffs G)).length)) K) (tF : K), 0 ≤ tF ∧
+      (∀ p q, 0 ≤ p → p < q → q ≤ tF →
+        phi (kernelInput x g lb ub (some (X, G)) e) x.length _ Mm q < phi (kernelInput x g lb ub (some (X, G)) e) x.length _ Mm p) ∧
+      (∃ δ, 0 < δ ∧ ∀ τ, tF ≤ τ → τ ≤ tF + δ →
+        phi (kernelInput x g lb ub (some (X, G)) e) x.length _ Mm tF ≤ phi (kernelInput x g lb ub (some (X, G)) e) x.length _ Mm τ) ∧
+      (cauchy (kernelInput x g lb ub (some (X, G)) e)).1 = clip (vsub x (smul tF (fitTo x g))) lb ub := by
+  obtain ⟨Mm, hk, hmin⟩ := kernel_minCtx lb ub e x g X G hX hXG hn hS hY hcurv hθ box floor
+  obtain ⟨tF, h0, hdec, hright, hcp, -⟩ := C08.gcp_first_local_min _ x.length _ Mm hk hmin
+  refine ⟨Mm, tF, h0, hdec, hright, ?_⟩
+  rw [hcp]
+  simp only [kernelInput, hX, if_true]
+
 /-- **C01 (descent for the complete model, from the curvature of the stored pairs)** -/
 theorem complete_iteration_descent_curv (lb ub : Vec K) (e : K) (x g : Vec K) (X G : List (Vec K))
     (hX : X.length > 1) (hXG : X.length = G.length) (hn : 0 < x.length)
